@@ -1,5 +1,6 @@
 import FcpptProofs.C09.Sort
 import FcpptProofs.C09.Output
+import FcpptProofs.C09.Progress
 /-!
 # C09 — property theorems
 
@@ -86,6 +87,23 @@ theorem parent_live {s : St} (h : Inv s) {p : Path} {c : PT} {i : Nat}
 theorem address_unique {s : St} (h : Inv s) {p q : Path} {x y : PT}
     (hx : getF p s.forest = some x) (hy : getF q s.forest = some y) (he : x.id = y.id) : p = q :=
   getF_inj h.uniq hx hy he
+
+/-! ## progress: valid operations never fault -/
+
+/-- an operation whose operands exist and whose positions are in range, and that is not the excluded self-ownership misuse,
+succeeds in the model (no out-of-bounds access, no dangling link followed, terminates) -/
+theorem tree_step_progress {s : St} {op : Op} (hg : op.guard = true) (hv : op.valid s.forest) : ∃ s', step s op = .ok s' :=
+  step_progress hg hv
+
+/-- and `Op.valid` is not stronger than necessary: an operation that succeeds was valid -/
+theorem tree_step_ok_iff_valid {s : St} {op : Op} (hg : op.guard = true) : (∃ s', step s op = .ok s') ↔ op.valid s.forest :=
+  ⟨fun ⟨_, h⟩ => valid_of_step_ok hg h, step_progress hg⟩
+
+/-- the observers never fault on a heap that satisfies the invariant: `to_root` / `level` from any live object terminate
+without following a dangling link, `pre_order` terminates -/
+theorem observers_progress {s : St} (h : Inv s) {p : Path} {x : PT} (hx : getF p s.forest = some x) :
+    (∃ l, toRoot s.forest x = .ok l) ∧ (∃ n, level s.forest x = .ok n) ∧ (∃ l, preOrder x = .ok l) :=
+  ⟨⟨_, toRoot_eq h.uniq h.roots hx⟩, ⟨_, level_eq h.uniq h.roots hx⟩, ⟨_, preOrder_eq x⟩⟩
 
 /-! ## refinement: the heap denotes the forest the abstract operation yields -/
 
@@ -348,7 +366,7 @@ example : (runOps St.init
      .sortBy [0] 2, .mkFrom [0] 7, .sortBy [1] 1, .sort [1]]).toBool = true := by decide +kernel
 
 example : ((sortKidsBy (predOf 2) [mkLeaf 0 4, mkLeaf 1 3, mkLeaf 2 1, mkLeaf 3 6]).map PT.id) = [1, 3, 0, 2] := by
-  simp [sortKidsBy, mkLeaf, predOf, List.mergeSort, List.MergeSort.Internal.splitInTwo, List.merge]
+  simp [sortKidsBy, mkLeaf, predOf, List.mergeSort, List.MergeSort.Internal.splitInTwo]
 
 /-- the printed form of `1(2(4) 3)` -/
 example : printT 0 (.node 0 1 none [.node 1 2 (some 0) [.node 2 4 (some 1) []], .node 3 3 (some 0) []])
